@@ -76,6 +76,8 @@ pub enum Leftover {
     Junk,
     /// a complete, well-formed response carrying a foreign tag
     Stale,
+    /// an empty line (which a response parser skips) and then a foreign response
+    CrlfStale,
 }
 
 pub struct Resp {
@@ -334,12 +336,16 @@ pub fn build(f: Framing, j: usize, leftover: Leftover) -> Resp {
             bytes.extend_from_slice(b"XYZZY junk\r\n\r\n");
             all_cuts.push(framed_len + 1);
         }
-        Leftover::Stale => {
+        Leftover::Stale | Leftover::CrlfStale => {
             let t = STALE_TAG_BASE + j;
+            if leftover == Leftover::CrlfStale {
+                bytes.extend_from_slice(b"\r\n");
+            }
             bytes.extend_from_slice(
                 format!("HTTP/1.1 200 OK\r\ncontent-length: 5\r\nx-req: {t}\r\n\r\nSTALE").as_bytes(),
             );
             all_cuts.push(framed_len + 1);
+            all_cuts.push(framed_len + 2);
         }
     }
     all_cuts.sort();
